@@ -235,6 +235,15 @@ def interesting(t, defs, req, sizes=CONTAINER_SIZES, strlens=STRLENS):
                                                for j in range(min(3, key_capacity(t["kt"])))]})
         else:
             out.append({"nil": False, "items": [zero_elem(t["e"], defs) for _ in range(3)]})
+        # containers of containers: inner lengths decreasing (3, 2, 1, 0) - whatever one entry leaves behind is too long for the next
+        et0 = t["e"] if k != "map" else t["vt"]
+        if et0["k"] in ("list", "set", "map") and not et0.get("ptr"):
+            inner = [sized_container(et0, n, defs, 3 + n) for n in (3, 2, 1, 0)]
+            if k == "map":
+                cap_ = key_capacity(t["kt"])
+                out.append({"nil": False, "ents": [[key_n(t["kt"], j, defs), inner[j]] for j in range(min(4, cap_))]})
+            else:
+                out.append({"nil": False, "items": inner})
         # pointer-struct elements / values that are nil (written as an empty struct)
         et = t["e"] if k != "map" else t["vt"]
         if et.get("ptr") and et["k"] == "struct":
@@ -306,6 +315,10 @@ UNKNOWN_RAW = [
     [4, 117, 53, 64, 9, 33, 251, 84, 68, 45, 24],
     [2, 117, 54, 1],
     [12, 117, 55, 11, 0, 1, 0, 0, 0, 1, 97, 8, 0, 2, 0, 0, 0, 9, 0],
+    # map<string,i64> (variable-size key, fixed-size value), list<string>, map<i32,string>
+    [13, 117, 56, 11, 10, 0, 0, 0, 2, 0, 0, 0, 2, 107, 121, 0, 0, 0, 0, 0, 0, 0, 9, 0, 0, 0, 1, 122, 255, 255, 255, 255, 255, 255, 255, 255],
+    [15, 117, 57, 11, 0, 0, 0, 2, 0, 0, 0, 1, 97, 0, 0, 0, 0],
+    [13, 117, 58, 8, 11, 0, 0, 0, 1, 0, 0, 0, 5, 0, 0, 0, 3, 120, 121, 122],
 ]
 
 
